@@ -115,6 +115,11 @@ def run_case(case, workdir):
     tol = 1e-8 + 30 * cut if not case.get("df") else 1e-8
     na, nb = mol.nelec
     info = {}
+    if case.get("method") == "uhf":
+        try:
+            info["S2"] = float(mf.spin_square()[0])
+        except Exception:
+            pass
     basis = basis_for(case, mf, rng) if ints is None else (np.eye(case["nsite"]) if case.get("basis_mode") == "identity" else None)
     kind = case["kind"]
     if ints is None:
@@ -271,12 +276,14 @@ def make_cases(rng, tier):
     mol_case("mf", "OH", "sto-3g", "rohf", nf=rng.choice([0, 1]), fci=True, basis_mode=rng.choice(["mo", "rot"]))
     mol_case("mf", rng.choice(["OH", "H3"]), "sto-3g" if rng.random() < 0.5 else "6-31g", "uhf", fci=(tier == "thorough"), rephase=True)
     mol_case("mf", "H4ring", "sto-6g", "rohf", spin=2, fci=True)
+    # singlet UHF with broken spin symmetry (alpha and beta orbitals differ although ms = 0)
+    mol_case("mf", "H4stretched", "sto-6g", "uhf", fci=(tier == "thorough"), rephase=rng.random() < 0.5)
     mol_case("mf", "H4chain", "6-31g", "rhf", df=True, fci=(tier == "thorough"))
     # coupled cluster
     mol_case("ccsd", rng.choice(["H4chain", "H4ring"]), "6-31g", "rhf", rephase=True, chol_cut=1e-8)
     mol_case("ccsd", "LiH", "sto-3g" if tier == "quick" else "6-31g", "rhf", nf=1, rephase=True, chol_cut=1e-8)
     mol_case("uccsd", rng.choice(["OH", "H3"]), "6-31g", "uhf", rephase=rng.random() < 0.5, chol_cut=1e-8)
-    mol_case("uccsd", "H4chain", "sto-6g", "uhf", rephase=True, chol_cut=1e-8)
+    mol_case("uccsd", rng.choice(["H4chain", "H4stretched"]), "sto-6g", "uhf", rephase=True, chol_cut=1e-8)
     # injected amplitudes (exact)
     mol_case("ccsd", "LiH", "sto-3g", "rhf", nf=rng.choice([0, 1]), inject=True)
     mol_case("uccsd", rng.choice(["OH", "H3"]), "sto-3g", "uhf", inject=True)
